@@ -81,6 +81,14 @@ def accw(st, x, w=1):
     return st + w * x
 
 
+def accn(st, x):
+    return (st or 0) + x
+
+
+def odd1(x):
+    return x % 2 == 1
+
+
 class Boom(Exception):
     """failure injected into the j-th user-function invocation of one emit (C16)"""
 
@@ -116,7 +124,7 @@ def _record(x):
 
 
 FUNCS = dict((k, _hooked(v)) for k, v in dict(inc=inc, pair=pair, add=add, odd=odd, parity=parity, ident=ident, accrs=accrs,
-                                              nxt=nxt, tsum=tsum, record=_record, addk=addk, add3=add3, gtk=gtk, accw=accw).items())
+                                              nxt=nxt, tsum=tsum, record=_record, addk=addk, add3=add3, gtk=gtk, accw=accw, accn=accn, odd1=odd1).items())
 
 
 # ---- node step functions ---------------------------------------------------------------------
@@ -124,8 +132,10 @@ def init_state(spec, nports=1):
     k = spec[0]
     if k == "acc":
         return (spec[2] is not None, spec[2])
-    if k == "accws":
+    if k in ("accws", "accrsws"):
         return 0
+    if k == "accnone":
+        return (False, None)
     if k == "pkey":
         return ()
     if k == "slice":
@@ -161,6 +171,16 @@ def step(spec, st, port, v, nports=1):
         return st, [V(FUNCS[spec[1]](*v.val), v.prov)]
     if k == "starmapkw":      # starmap(add3, c=100)
         return st, [V(FUNCS["add3"](*v.val, c=100), v.prov)]
+    if k == "starmapargs":    # starmap(add3, 100): extra positional argument appended
+        return st, [V(FUNCS["add3"](*(tuple(v.val) + (100,))), v.prov)]
+    if k == "filtername":     # filter(odd1, stream_name="f"): the stream_name is not the predicate's business
+        return st, ([v] if FUNCS["odd1"](v.val) else [])
+    if k == "accnone":        # accumulate(accn, start=None): None is a legitimate start value
+        s2 = FUNCS["accn"](st[1] if st[0] else None, v.val)
+        return (True, s2), [V(s2, v.prov)]
+    if k == "accrsws":        # accumulate(accrs, start=0, returns_state=True, with_state=True) emits (state, result)
+        s2, res = FUNCS["accrs"](st, v.val)
+        return s2, [V((s2, res), v.prov)]
     if k == "filterargs":     # filter(gtk, 1, hi=2): passes 1 < x <= 2
         return st, ([v] if FUNCS["gtk"](v.val, 1, hi=2) else [])
     if k == "accws":          # accumulate(accw, start=0, w=2, with_state=True) emits (state, result)
